@@ -103,6 +103,8 @@ impl UserDefinedDataReader {
             return;
         };
         self.matched_publication_list.remove(i);
+        self.reader
+            .remove_instance_writer(publication_handle.as_ref());
 
         self.subscription_matched_status.current_count = self.matched_publication_list.len() as i32;
         self.subscription_matched_status.current_count_change -= 1;
